@@ -1444,6 +1444,14 @@ func (r *runner) sinkIDs(key string) string {
 				}
 			}
 			sortStrings(want)
+			// a dimension named twice is one dimension (groupBy('host','dc','host') groups like groupBy('dc','host'))
+			uniq := want[:0]
+			for _, d := range want {
+				if len(uniq) == 0 || uniq[len(uniq)-1] != d {
+					uniq = append(uniq, d)
+				}
+			}
+			want = uniq
 			dims := pm.Dimensions()
 			if dims.ByName != o.byName || strings.Join(dims.TagNames, ",") != strings.Join(want, ",") {
 				tok += "!d"
